@@ -6,7 +6,7 @@ from hypothesis import strategies as st, assume
 import scikit_tt.solvers.ode as ode
 from scikit_tt.tensor_train import TT
 from vt import dense, gen, build
-from vt.common import Sub, Violation, require
+from vt.common import Sub, Violation, require, target
 from vt.build import close, require_consistent
 
 PROPERTY_ID = 'C10'
@@ -253,6 +253,7 @@ def body_order(c):
         return lab
     order = np.log2(errs[0] / errs[1])
     lab.add('order_measured')
+    target(need - order, 'order deficit')
     require(order >= need, 'order', '%s: errors %.3e -> %.3e when halving the step, measured order %.2f < %.1f' % (scheme, errs[0], errs[1], order, need))
     return lab
 
